@@ -24,6 +24,10 @@ type expectation struct {
 	count     int    // on success, number of elements of a packed result (-1: not applicable)
 	val       uint64 // on success, expected value (when hasVal)
 	hasVal    bool
+	// truncAdv: the item's length prefix is a 10-byte varint with bits beyond 64. Readers differ: protowire refuses it,
+	// a reader that drops the excess bits (csproto's DecodeVarint does, also for scalars) sees the length truncAdv-prefix.
+	// Both are within the property: an error, or an item whose extent follows from the reader's own value. 0 = not applicable.
+	truncAdv int
 }
 
 // varintExtent returns the length of the varint at the start of b: the index of the first byte
@@ -86,8 +90,13 @@ func expLen(b []byte) expectation {
 	}
 	l, _, err := refwire.ConsumeVarint(b)
 	if err != nil {
-		// overflowing length: whatever 64-bit value a reader makes of it, it cannot fit
-		return expectation{malformed: true}
+		// overflowing length: refused by the reference; a reader that truncates to 64 bits gets varintValue(b, n), which
+		// may well fit (the excess bits are simply dropped: 80..80 04 reads as 0)
+		e := expectation{malformed: true}
+		if t := varintValue(b, n); t <= uint64(len(b)-n) {
+			e.truncAdv = n + int(t)
+		}
+		return e
 	}
 	if l > uint64(len(b)-n) {
 		return expectation{malformed: true}
@@ -428,6 +437,9 @@ func (w *totalWorker) one(m *method, in, backup []byte, d *csproto.Decoder, fast
 	exp := m.exp(rest)
 	if cr.err == nil {
 		switch {
+		case exp.malformed && exp.truncAdv > 0 && noff-off == exp.truncAdv:
+			// accepted with the truncated length, cursor exactly behind that item: within the property (see expectation.truncAdv)
+			w.classes[m.name+"/overflowing-length-prefix-read-truncated/"+modeName(fast)]++
 		case exp.malformed:
 			viol("accepted-malformed", fmt.Sprintf("%s succeeded although the item at offset %d is truncated, unterminated or declares more than the remaining input", m.name, off))
 		case noff-off != exp.adv:
